@@ -3,6 +3,7 @@ import DoltVerif.Model.JournalRec
 import DoltVerif.Model.JournalRecover
 import DoltVerif.Model.JournalWriter
 import DoltVerif.Model.JournalIndex
+import DoltVerif.Model.JournalLock
 open DoltVerif DoltVerif.Journal DoltVerif.Wire
 
 structure St where
@@ -10,6 +11,11 @@ structure St where
   w : WState := { cap := 0, maxNovel := 0, threshold := 0 }
   written : Bytes := []
   boot : Option Boot := none
+  lk : Lock.Sys := {}
+
+def showAnswer : Lock.Answer → String
+  | .opened .exclusive => "exclusive" | .opened .readOnly => "readonly" | .errLocked => "locked"
+  | .wrote => "wrote" | .errReadOnly => "readonly-err" | .closed => "closed" | .noSession => "no-session"
 
 def showOp : FileOp → String
   | .idxCreate => "idx-create" | .idxTruncate o => s!"idx-truncate:{o}" | .idxWriteLookup _ => "idx-lookup"
@@ -104,6 +110,16 @@ def step (st : St) : List String → St × String
       | some n => let (w, evs) := Journal.step st.w (.bump n); ({ st with w := w }, showW w evs)
       | none => (st, "bad-op")
   | ["wwritten"] => (st, hex st.written)
+  | ["lk", "reset"] => ({ st with lk := {} }, "ok")
+  | ["lk", "open", p, ff] => match p.toNat? with
+      | some p => let (s, a) := Lock.step Lock.flock st.lk (.opn p (ff == "1")); ({ st with lk := s }, showAnswer a)
+      | none => (st, "bad-op")
+  | ["lk", "write", p] => match p.toNat? with
+      | some p => let (s, a) := Lock.step Lock.flock st.lk (.write p); ({ st with lk := s }, showAnswer a)
+      | none => (st, "bad-op")
+  | ["lk", "close", p] => match p.toNat? with
+      | some p => let (s, a) := Lock.step Lock.flock st.lk (.close p); ({ st with lk := s }, showAnswer a)
+      | none => (st, "bad-op")
   | ["iboot", bsz, mx, idx, cw] => match bsz.toNat?, mx.toNat?, (if idx == "none" then some none else (unhex idx).map some) with
       | some B, some mx, some idx =>
         match bootstrap B mx st.file idx (cw == "1") with
